@@ -15,7 +15,7 @@ PLANS = ["NoGC", "SemiSpace", "GenCopy", "GenImmix", "MarkSweep", "PageProtect",
 
 
 # plan -> allocation semantics (codes) that trigger a recorded defect of the pinned snapshot
-EXCLUDED_SEMS = {"MarkCompact": {"6"}, "Compressor": {"1", "6"}, "ConcurrentImmix": {"6"}}
+EXCLUDED_SEMS = {"MarkCompact": {"6"}, "Compressor": {"1", "6"}}
 
 
 HEAP_EVENTS = {"Boot", "Reset", "Alloc", "AllocCall", "AllocFail", "Write", "Load", "SetRoot", "Bind",
@@ -122,8 +122,8 @@ def matrix(tier, focus="general"):
                     known_key="MarkCompact+NonMoving"))
     runs.append(Run("Compressor", name="immortal-referrer-probe", sems="0,0,1,6", programs=6,
                     known_key="Compressor+Immortal/NonMoving-referrer"))
-    runs.append(Run("ConcurrentImmix", name="nonmoving-probe", sems="0,0,6,6", programs=8,
-                    known_key="ConcurrentImmix+NonMoving"))
+    # (repaired defect, 7bc4a11: kept as an ordinary run so that a regression is reported)
+    runs.append(Run("ConcurrentImmix", name="nonmoving", sems="0,0,6,6", programs=8))
     return runs
 
 
